@@ -23,28 +23,29 @@ type harnessSpec struct {
 	Dir        string
 	Exports    []string
 	NoRedirect bool
+	Race       bool // also build the harness with -race (supplementary free-running pass)
 }
 
 var harnessOf = map[string]harnessSpec{
-	"C04": {"stackmc", []string{"export_stack.go"}, false},
-	"C05": {"stackmc", []string{"export_stack.go"}, false},
-	"C08": {"stackmc", []string{"export_stack.go"}, false},
-	"C10": {"stackmc", []string{"export_stack.go"}, false},
-	"C16": {"stackmc", []string{"export_stack.go"}, false},
-	"C06": {"crashseq", []string{"export_stack.go"}, false},
-	"C07": {"seqbfs", []string{"export_stack.go"}, false},
-	"C09": {"seqbfs", []string{"export_stack.go"}, false},
-	"C12": {"seqbfs", []string{"export_stack.go"}, false},
-	"C13": {"seqbfs", []string{"export_stack.go"}, false},
-	"C17": {"autocompact", []string{"export_stack.go"}, false},
-	"C01": {"codec", []string{"export_merged.go", "export_stack.go"}, false},
-	"C02": {"codec", []string{"export_merged.go", "export_stack.go"}, false},
-	"C14": {"codec", []string{"export_merged.go", "export_stack.go"}, false},
-	"C03": {"codec", []string{"export_merged.go", "export_stack.go"}, false},
-	"C11": {"codec", []string{"export_merged.go", "export_stack.go"}, false},
-	"C18": {"corrupt", nil, false},
-	"C19": {"sharedread", []string{"export_merged.go"}, false},
-	"C15": {"cdiff", []string{"export_stack.go"}, true},
+	"C04": {"stackmc", []string{"export_stack.go"}, false, false},
+	"C05": {"stackmc", []string{"export_stack.go"}, false, false},
+	"C08": {"stackmc", []string{"export_stack.go"}, false, false},
+	"C10": {"stackmc", []string{"export_stack.go"}, false, false},
+	"C16": {"stackmc", []string{"export_stack.go"}, false, false},
+	"C06": {"crashseq", []string{"export_stack.go"}, false, false},
+	"C07": {"seqbfs", []string{"export_stack.go"}, false, false},
+	"C09": {"seqbfs", []string{"export_stack.go"}, false, false},
+	"C12": {"seqbfs", []string{"export_stack.go"}, false, false},
+	"C13": {"seqbfs", []string{"export_stack.go"}, false, false},
+	"C17": {"autocompact", []string{"export_stack.go"}, false, false},
+	"C01": {"codec", []string{"export_merged.go", "export_stack.go"}, false, false},
+	"C02": {"codec", []string{"export_merged.go", "export_stack.go"}, false, false},
+	"C14": {"codec", []string{"export_merged.go", "export_stack.go"}, false, false},
+	"C03": {"codec", []string{"export_merged.go", "export_stack.go"}, false, false},
+	"C11": {"codec", []string{"export_merged.go", "export_stack.go"}, false, false},
+	"C18": {"corrupt", nil, false, false},
+	"C19": {"sharedread", []string{"export_merged.go"}, false, true},
+	"C15": {"cdiff", []string{"export_stack.go"}, true, false},
 }
 
 func fail(format string, a ...interface{}) {
@@ -137,10 +138,21 @@ func run(prop string, hs harnessSpec, verif, repo, scratch string, args []string
 		fmt.Printf("HARNESS-ERROR build of harness %s against %s failed: %v\n%s\n", hs.Dir, repo, err, out)
 		return 2
 	}
+	raceBin := ""
+	if hs.Race {
+		raceBin = filepath.Join(scratch, "harness-race")
+		rb := exec.Command("go", "build", "-race", "-overlay", ov, "-o", raceBin, "./harness/"+hs.Dir)
+		rb.Dir = verif
+		rb.Env = append(env, "CGO_ENABLED=1")
+		if out, err := rb.CombinedOutput(); err != nil {
+			fmt.Printf("NOTE: the supplementary -race build failed (%v); continuing without it\n%s\n", err, out)
+			raceBin = ""
+		}
+	}
 	full := append([]string{"--property", prop, "--bindreport", brep}, args...)
 	cmd := exec.Command(bin, full...)
 	cmd.Dir = verif
-	cmd.Env = append(env, "VERIF_SCRATCH="+scratch)
+	cmd.Env = append(env, "VERIF_SCRATCH="+scratch, "VERIF_RACE_BIN="+raceBin)
 	cmd.Stdout = os.Stdout
 	cmd.Stderr = os.Stderr
 	if err := cmd.Run(); err != nil {
